@@ -2,3 +2,6 @@ import Proofs.Ring
 import Proofs.RingSpec
 import Proofs.PipeLemmas
 import Proofs.C01Spec
+import Proofs.C12Spec
+import Proofs.C03Spec
+import Proofs.PipeThr
